@@ -49,6 +49,19 @@ type Inst struct {
 	Meter  *Frac             `json:"meter,omitempty"`
 	Key    *string           `json:"key,omitempty"`
 	Txt    map[string]string `json:"txt,omitempty"` // txt / lic / mrk (and arbitrary other keys)
+	Pad    int               `json:"pad,omitempty"` // the duration numbers are written with this many leading zeros ("010/016" is 10/16)
+}
+
+// spell writes a duration the way the document spells it.
+func (d Inst) spell(v Frac) string {
+	z := strings.Repeat("0", d.Pad)
+	if v.D == 1 && d.Pad == 0 {
+		return fmt.Sprint(v.N)
+	}
+	if v.D == 1 {
+		return z + fmt.Sprint(v.N)
+	}
+	return fmt.Sprintf("%s%d/%s%d", z, v.N, z, v.D)
 }
 
 // flagSyntax writes one flag in one of the spellings the command line accepts.
@@ -132,7 +145,7 @@ func (d Inst) yaml() string {
 		if i > 0 {
 			sb.WriteString(", ")
 		}
-		sb.WriteString(yq(v.String()))
+		sb.WriteString(yq(d.spell(v)))
 	}
 	sb.WriteString("]\n")
 	if c := d.Chord; c != nil {
@@ -228,7 +241,11 @@ func (d Inst) yamlPlain() string {
 	} else {
 		item("values:\n")
 		for _, v := range d.Values {
-			sb.WriteString("    - " + yp(v.String()) + "\n")
+			if d.Pad > 0 {
+				sb.WriteString("    - " + yq(d.spell(v)) + "\n") // quoted: a plain 010 is a YAML 1.1 octal integer to some readers
+			} else {
+				sb.WriteString("    - " + yp(v.String()) + "\n")
+			}
 		}
 	}
 	if d.BPM != nil {
@@ -419,6 +436,9 @@ func genInst(o DocOpts) *rapid.Generator[Inst] {
 			in.Values = []Frac{{rapid.IntRange(1, 4).Draw(t, "sv"), rapid.SampledFrom([]int{1, 1, 2, 4}).Draw(t, "sd")}}
 		} else {
 			in.Values = genValues(4).Draw(t, "values")
+			if coin(t, "zero-padded-values", 5) {
+				in.Pad = rapid.IntRange(1, 3).Draw(t, "pad")
+			}
 		}
 		in.BPM = opt(t, "bpm", o.Settings, genBPM)
 		in.Vel = opt(t, "vel", o.Settings, rapid.SampledFrom(theory.Dynamics))
@@ -559,6 +579,21 @@ func capTotal(d *Doc) {
 			return
 		}
 	}
+}
+
+// beyondDelta: the piece is longer than the largest delta time an SMF can hold (0x0FFFFFFF ticks at 960 per
+// quarter). Only then may `write` refuse it: some track may have to stay silent for the whole piece. A piece
+// that fits has no delta above the limit on any track, so a refusal of it is a violation.
+func beyondDelta(d Doc) bool {
+	var total int64
+	for _, in := range d.Insts {
+		_, hi := ticksOf(in.Values, 960)
+		total += hi
+		if total > 0x0FFFFFFF {
+			return true
+		}
+	}
+	return false
 }
 
 // -------------------------------------------------------------------- model
